@@ -49,6 +49,9 @@ func coreC10(tier string) []RunSpec {
 		out = append(out, RunSpec{Profile: "core:tampered-token", Params: map[string]int{"tampered": 1, "k": k}})
 	}
 	for k := 0; k < 4; k++ {
+		out = append(out, RunSpec{Profile: "core:tampered-token-appended-bytes", Params: map[string]int{"tampered": 1, "ttmode": 1 + k%2, "k": k}})
+	}
+	for k := 0; k < 4; k++ {
 		out = append(out, RunSpec{Profile: "core:failed-melt-then-send-dleq", Params: map[string]int{"meltback": 1, "k": k}})
 	}
 	return out
@@ -365,13 +368,26 @@ func (ww *WW) StepTamperedToken() {
 	victim := ww.T.Choose("tt.victim", len(ps))
 	d := *ps[victim].DLEQ
 	field := ww.T.Choose("tt.field", 3)
+	// the alteration: one hex digit changed, or bytes appended (a verifier that reads only the
+	// first 32 bytes of a scalar would not notice those)
+	alter := flipHex
+	mode := ww.T.Choose("tt.mode", 3)
+	if v, ok := ww.rc.Spec.Params["ttmode"]; ok {
+		mode = v
+	}
+	switch mode {
+	case 1:
+		alter = func(h string) string { return h + "ff" }
+	case 2:
+		alter = func(h string) string { return h + "0000" }
+	}
 	switch field {
 	case 0:
-		d.E = flipHex(d.E)
+		d.E = alter(d.E)
 	case 1:
-		d.S = flipHex(d.S)
+		d.S = alter(d.S)
 	case 2:
-		d.R = flipHex(d.R)
+		d.R = alter(d.R)
 	}
 	ps[victim].DLEQ = &d
 	stripEarlier := victim > 0 && ww.T.Chance("tt.strip", 1, 2)
@@ -380,7 +396,7 @@ func (ww *WW) StepTamperedToken() {
 			ps[j].DLEQ = nil
 		}
 	}
-	ww.op(fmt.Sprintf("tampered-token field=%d victim=%d/%d stripEarlier=%v", field, victim, len(ps), stripEarlier))
+	ww.op(fmt.Sprintf("tampered-token field=%d mode=%d victim=%d/%d stripEarlier=%v", field, mode, victim, len(ps), stripEarlier))
 	s, err := MakeToken(ps, ww.mintURL(tok.Mint), keysetsOf(ps) == 1 && ww.T.Chance("tt.v4", 1, 2), true)
 	if err != nil {
 		return
@@ -398,8 +414,8 @@ func (ww *WW) StepTamperedToken() {
 	ww.rc.Nontrivial = true
 	if rerr == nil {
 		tok.Claimed = true
-		ww.W.Book.Violate("C10.tampered_token_accepted", fmt.Sprintf("field=%d|stripEarlier=%v", field, stripEarlier),
-			"wallet received a token in which the DLEQ proof of proof %d was altered (field %d, earlier proofs without DLEQ: %v)", victim, field, stripEarlier)
+		ww.W.Book.Violate("C10.tampered_token_accepted", fmt.Sprintf("field=%d|mode=%d|stripEarlier=%v", field, mode, stripEarlier),
+			"wallet received a token in which the DLEQ proof of proof %d was altered (field %d, mode %d: 0 digit changed, 1/2 bytes appended; earlier proofs without DLEQ: %v)", victim, field, mode, stripEarlier)
 	}
 }
 
